@@ -4,7 +4,7 @@ Implementation of hooks and APIs for outputting log messages.
 
 import traceback
 import inspect
-from threading import Lock
+from threading import Lock, RLock
 from functools import wraps
 from io import IOBase
 import warnings
@@ -56,6 +56,11 @@ class Destinations(object):
         self._destinations = [BufferingDestination()]
         self._any_added = False
         self._globalFields = {}
+        # Held while a message is buffered and while the buffer is handed
+        # over to the first real destinations, so that a message logged by
+        # another thread during the hand-over is not lost. Not used once
+        # destinations have been added.
+        self._buffering_lock = RLock()
 
     def addGlobalFields(self, **fields):
         """
@@ -79,6 +84,13 @@ class Destinations(object):
 
         @param logger: The ``ILogger`` that wrote the message, if any.
         """
+        if self._any_added:
+            self._send(message, logger)
+        else:
+            with self._buffering_lock:
+                self._send(message, logger)
+
+    def _send(self, message, logger):
         message.update(self._globalFields)
         errors = []
         is_destination_error_message = (
@@ -128,18 +140,19 @@ class Destinations(object):
         @param destinations: A list of callables that takes message
             dictionaries.
         """
-        buffered_messages = None
         if not self._any_added:
-            # These are first set of messages added, so we need to clear
-            # BufferingDestination:
-            self._any_added = True
-            buffered_messages = self._destinations[0].messages
-            self._destinations = []
+            with self._buffering_lock:
+                if not self._any_added:
+                    # These are first set of messages added, so we need to
+                    # clear BufferingDestination:
+                    buffered_messages = self._destinations[0].messages
+                    self._destinations = list(destinations)
+                    # Re-deliver buffered messages:
+                    for message in buffered_messages:
+                        self.send(message)
+                    self._any_added = True
+                    return
         self._destinations.extend(destinations)
-        if buffered_messages:
-            # Re-deliver buffered messages:
-            for message in buffered_messages:
-                self.send(message)
 
     def remove(self, destination):
         """
